@@ -27,12 +27,13 @@ func main() {
 		name string
 		al   []calls.Call
 		def  bool
-	}{{"shared-registry", calls.Alphabet, false}, {"minify.Default", calls.DefaultAlphabet, true}} {
+		mk   func() *calls.Shared
+	}{{"shared-registry", calls.Alphabet, false, calls.New}, {"shared-registry-zero-options", calls.Alphabet, false, calls.NewPlain}, {"minify.Default", calls.DefaultAlphabet, true, calls.New}} {
 		refs := make([]string, len(set.al))
 		for i, c := range set.al {
-			refs[i] = c.Run(calls.New().M)
+			refs[i] = c.Run(set.mk().M)
 		}
-		sh := calls.New()
+		sh := set.mk()
 		before := sh.Snapshot()
 		var wg sync.WaitGroup
 		var mu sync.Mutex
